@@ -158,10 +158,10 @@ func checkLicenseLiteral(c *Ctx, p *core.Prog, lit structLit) {
 			if !isCmp {
 				continue
 			}
-			if cmp.Op == token.GEQ && cmp.X == conf && isThresholdLoad(cmp.Y) {
+			if (cmp.Op == token.GEQ || cmp.Op == token.GTR) && cmp.X == conf && isThresholdLoad(cmp.Y) {
 				ok = true
 			}
-			if cmp.Op == token.LEQ && cmp.Y == conf && isThresholdLoad(cmp.X) {
+			if (cmp.Op == token.LEQ || cmp.Op == token.LSS) && cmp.Y == conf && isThresholdLoad(cmp.X) {
 				ok = true
 			}
 		}
